@@ -5,6 +5,9 @@ from props import C25
 from props import parallel_guard
 
 MUTANTS = [(n, o, w, e) for (n, o, w, e) in C25.MUTANTS_BTREE]
+MUTANTS.insert(1, ('right-sibling-last-child-not-moved', '''            for (size_type i = to_move; i <= right->getNumElements(); ++i) {
+                auto child = right_children[i];''', '''            for (size_type i = to_move; i < right->getNumElements(); ++i) {
+                auto child = right_children[i];''', 'R7'))
 
 
 def run(tier='quick'):
